@@ -14,7 +14,7 @@ RULE = ('(a) IR-level store/load histories through eval_instr/eval_expr: stores 
         'machine register base (init_esp), then a load of width 8/16/32 at offset 0..7: exhaustive for 1 store + 1 load (3 bases x 576), exhaustive for 2 stores '
         '+ 1 load in the thorough tier (a deterministic eighth in quick), seeded random for 3..8 stores with interleaved loads; stored values are fresh symbols, constants (2 stores + 1 load again with constant values) and contiguous slices of one identifier stored at adjacent addresses followed by a wide load and a second load; (b) ISA-level straight-line '
         'sequences of length 1..12 over mov/add/sub/xor/and/or/inc/dec/neg/not/lea/push/pop/xchg/xadd/shl/shr/movzx with register, immediate and memory '
-        'operands whose addresses fall in an 8-byte window, assembled by GNU as, emulated with emul_lines on x86_machine(); (c) rep movs/stos/lods and '
+        'operands whose addresses fall in an 8-byte window, assembled by GNU as, emulated with emul_lines on x86_machine(); (b2) accesses through a register reloaded from memory whose source cell is then overwritten, compared with the twin sequence through the initial register; registers holding boundary constants x shifts / rotates / ALU / mul / bit operations (concrete evaluation paths); (c) rep movs/stos/lods and '
         'repe/repne cmps/scas with concrete ecx in {0,1,2,5} and both directions. After each history every register and every (offset 0..11, width 8/16/32) '
         'read-back is compared on 4 valuations. A case = the history; non-trivial = it contains a read overlapping an earlier write of another width or offset '
         '(a), or a memory access / a rep prefix (b, c).')
@@ -437,6 +437,11 @@ def has_known_bad_overlap(lines, readback=None):
     return False
 
 
+def re_suffix(mn):
+    import re
+    return re.sub(r'^(rol|ror|rcl|rcr|shl|shr|sar|add|sub|adc|sbb|xor|and|or|cmp|test|neg|not|inc|dec|mul|imul|bt|bsf|bsr|shld|shrd|xchg|lea)[bwl]$', r'\1', mn)
+
+
 def mech_class(lines):
     """Coarse mechanism class of an instruction sequence: which features it contains."""
     f = set()
@@ -480,6 +485,33 @@ def minimise(sh, lines, tag, origin, rep, kind):
     return cur
 
 
+def ptr_case(sh, lines, twin, tag):
+    """Sequence through a reloaded pointer vs its twin through the initial register: a failure of the sequence that its twin
+    does not share is not the known overlap mechanism."""
+    asm = gnuref.gas(lines, 'att')
+    asm2 = gnuref.gas(twin, 'att')
+    if any(a[0] is None for a in asm) or any(a[0] is None for a in asm2):
+        sh.counters['gas_rejects'] += 1
+        return
+    t = common.Shard()
+    emulate_and_compare(t, lines, [a[0] for a in asm], tag, 'isa-ptr')
+    sh.evaluations += t.evaluations
+    sh.nontrivial |= t.nontrivial
+    sh.classes |= t.classes
+    sh.counters.update(t.counters)
+    if not t.violations:
+        return
+    t2 = common.Shard()
+    emulate_and_compare(t2, twin, [a[0] for a in asm2], tag, 'isa-ptr')
+    v = t.violations[0]
+    kind = v['key'].split('/')[1]
+    if t2.violations:
+        key = 'isa-alias/state-differs-after-partially-overlapping-accesses'
+    else:
+        key = 'isa-ptr/%s/%s' % (kind, 'stack' if 'ebp' in lines[0] else 'reloaded-pointer')
+    sh.violation(key, v['detail'] + ' [the same accesses through the initial register %s]' % ('fail too' if t2.violations else 'are handled correctly'), {'part': 'b', 'lines': lines, 'rep': False})
+
+
 def isa_case(sh, lines, tag, origin, rep=False):
     asm = gnuref.gas(lines, 'att')
     if any(a[0] is None for a in asm):
@@ -505,9 +537,47 @@ def isa_case(sh, lines, tag, origin, rep=False):
             # mechanisms themselves are keyed precisely by the IR-level histories of part (a). Only sequences that
             # contain one of the access relations known to be mishandled are attributed to it.
             key = 'isa-alias/state-differs-after-partially-overlapping-accesses'
+        elif origin == 'isa-const':
+            key = '%s/%s/%s' % (origin, kind, re_suffix(lines[-1].split()[0]))
         else:
             key = '%s/%s/%s' % (origin, kind, mech_class(small))
         sh.violation(key, v['detail'] + ' [minimised from %d to %d instructions: %s]' % (len(lines), len(small), '; '.join(small)), {'part': 'b', 'lines': small, 'rep': rep})
+
+
+def ptr_cases():
+    """(sequence, twin) pairs: the sequence accesses memory through a register that was itself loaded from memory, whose source
+    cell is then overwritten; the twin does the same accesses through the initial register without the reload."""
+    out = []
+    sfx = {8: ('b', '%al', '%dl'), 16: ('w', '%ax', '%dx'), 32: ('l', '%eax', '%edx')}
+    for o1 in (0, 2):
+        for w1 in (8, 16, 32):
+            for over in ('full', 'partial', 'none'):
+                for o2 in (0, 1, 2, 4):
+                    for w2 in (8, 16, 32):
+                        st = 'mov%s %s, %d(%%esi)' % (sfx[w1][0], sfx[w1][1], o1)
+                        ld = 'mov%s %d(%%esi), %s' % (sfx[w2][0], o2, sfx[w2][2])
+                        ov = {'full': ['movl %ecx, (%ebx)'], 'partial': ['movb %cl, 1(%ebx)'], 'none': []}[over]
+                        out.append((['movl (%ebx), %esi', st] + ov + [ld], [st, ld]))
+    return out
+
+
+def const_cases():
+    """Registers holding constants (concrete evaluation paths of the evaluator): boundary constants x shifts/rotates/ALU."""
+    out = []
+    for K in (0x80000001, 0x12345678, 0xffffffff, 0x00000001, 0x7fffffff):
+        for sfx, reg in (('l', '%eax'), ('w', '%ax'), ('b', '%al'), ('b', '%ah')):
+            for op in ('rol', 'ror', 'rcl', 'rcr', 'shl', 'shr', 'sar'):
+                for c in (1, 4, 7, 8, 15, 31):
+                    out.append(['movl $%d, %%eax' % K, 'clc' if c % 2 else 'stc', '%s%s $%d, %s' % (op, sfx, c, reg)])
+                out.append(['movl $%d, %%eax' % K, 'movb $%d, %%cl' % (K & 0x1f), 'clc', '%s%s %%cl, %s' % (op, sfx, reg)])
+            for op in ('add', 'sub', 'adc', 'sbb', 'xor', 'and', 'or', 'cmp', 'test'):
+                out.append(['movl $%d, %%eax' % K, 'movl $%d, %%ebx' % (K ^ 0x5a5a5a5a), 'stc', '%s%s %s, %s' % (op, sfx, {'l': '%ebx', 'w': '%bx', 'b': '%bl'}[sfx], reg)])
+            for op in ('neg', 'not', 'inc', 'dec'):
+                out.append(['movl $%d, %%eax' % K, '%s%s %s' % (op, sfx, reg)])
+        for op in ('mull %ebx', 'imull %ebx', 'imull %ebx, %eax', 'imull $-3, %eax, %edx', 'bswap %eax', 'cltd', 'cwtl', 'movzbl %al, %edx', 'movsbl %ah, %edx', 'movswl %ax, %edx',
+                   'leal 4(%eax,%eax,4), %edx', 'xchgb %al, %ah', 'btl $31, %eax', 'bsfl %eax, %edx', 'bsrl %eax, %edx', 'shldl $4, %ebx, %eax', 'shrdl $4, %ebx, %eax'):
+            out.append(['movl $%d, %%eax' % K, 'movl $%d, %%ebx' % (K ^ 0x5a5a5a5a), op])
+    return out
 
 
 REP_CASES = []
@@ -540,6 +610,10 @@ def shards(tier, seed):
         out.append(('isa-noalias', i))
     for i in range(0, len(REP_CASES), 8):
         out.append(('rep', i))
+    for i in range(0, len(ptr_cases()), 16):
+        out.append(('ptr', i))
+    for i in range(0, len(const_cases()), 24):
+        out.append(('constregs', i))
     return out
 
 
@@ -607,6 +681,12 @@ def run_shard(shard, tier, seed):
             n = rng.randint(1, 12)
             lines = [gen_line(rng, alias=(kind == 'isa')) for _ in range(n)]
             isa_case(sh, lines, (kind, seed, shard[1], i), 'isa-alias' if kind == 'isa' else 'isa-noalias')
+    elif kind == 'ptr':
+        for j, (lines, twin) in enumerate(ptr_cases()[shard[1]:shard[1] + 16]):
+            ptr_case(sh, lines, twin, ('ptr', shard[1] + j))
+    elif kind == 'constregs':
+        for j, lines in enumerate(const_cases()[shard[1]:shard[1] + 24]):
+            isa_case(sh, lines, ('const', shard[1] + j), 'isa-const')
     elif kind == 'rep':
         for j, lines in enumerate(REP_CASES[shard[1]:shard[1] + 8]):
             isa_case(sh, lines, ('rep', shard[1] + j), 'rep', rep=True)
